@@ -835,8 +835,8 @@ class TemplateModel(object):
         amplitude = template.max(axis=0) - template.min(axis=0)
         assert not np.all(np.isnan(amplitude)), "Template is all NaN!"
         assert amplitude.ndim == 1  # shape: (n_channels,)
-        # Find the peak channel.
-        best_channel = np.argmax(amplitude)
+        # Find the peak channel (a channel that is NaN in the template has no amplitude).
+        best_channel = np.nanargmax(amplitude)
         max_amp = amplitude[best_channel]
         # Find the channels X% peak.
         amplitude_threshold = (
